@@ -54,6 +54,9 @@ pub struct CtlConfig {
     /// writes followed by the delivery of the result -- so that closures of different tasks
     /// interleave the way they do on a real blocking pool.
     pub split_write_jobs: bool,
+    /// directed (non-exploring) policy for the scale run: gather every client at its channel
+    /// send while it holds the storage lock, then let the worker and the senders go
+    pub gather_at_send: bool,
 }
 
 impl Default for CtlConfig {
@@ -71,6 +74,7 @@ impl Default for CtlConfig {
             clock_step: Duration::from_secs(200),
             step_cap: 200_000,
             split_write_jobs: false,
+            gather_at_send: false,
         }
     }
 }
@@ -365,6 +369,19 @@ impl Ctl {
     }
 
     /// first pending job submitted by task `id`
+    /// Directed choice for `gather_at_send`: clients that are not standing at a send point first
+    /// (lowest id), then the worker, then the lowest client at a send point.
+    fn gather_choice(&self, enabled: &[Entity]) -> Option<usize> {
+        let st = self.st.borrow();
+        let at_send = |t: usize| matches!(st.tasks[t].state, TState::AtPoint(Label::Send));
+        let is_client = |t: usize| st.tasks[t].name.starts_with("client");
+        let pos = |pred: &dyn Fn(&Entity) -> bool| enabled.iter().position(|e| pred(e));
+        pos(&|e| matches!(e, Entity::Job { .. }))
+            .or_else(|| pos(&|e| matches!(e, Entity::Task(t) if is_client(*t) && !at_send(*t))))
+            .or_else(|| pos(&|e| matches!(e, Entity::Task(t) if !is_client(*t) && st.tasks[*t].name != "main")))
+            .or_else(|| pos(&|e| matches!(e, Entity::Task(t) if is_client(*t))))
+    }
+
     fn first_job_of(&self, id: TaskId) -> Option<usize> {
         self.st.borrow().jobs.iter().find(|j| j.owner == Some(id)).map(|j| j.id)
     }
@@ -711,7 +728,12 @@ pub async fn drive(ctl: &Ctl, prefix: &[usize]) -> RunTrace {
             };
         }
         let cont = continuation_index(&enabled, last);
-        let def = default_index(&enabled, cont);
+        let mut def = default_index(&enabled, cont);
+        if ctl.cfg.gather_at_send {
+            if let Some(g) = ctl.gather_choice(&enabled) {
+                def = g;
+            }
+        }
         let chosen = if enabled.len() == 1 {
             0
         } else if !ctl.exploring() {
